@@ -150,7 +150,7 @@ def boundary(b: int, adj: int) -> bool:
         with notrace():
             L = name_len_for(integ, phys, target)
         if L is None:
-            return False
+            return fin(M, False, b=b, adj=adj)   # no stream name yields a frame of that length: the length prefix itself is off
         name = "n" * L
         want = [norm_item(i) for i in ITEMS[phys][:1]]
         ok = True
